@@ -384,7 +384,7 @@ def run(ctx):
              "classification (languages and slice windows)", floor=6)
     run.rule("C03.R4", "each classified line is readline().strip(); lineno "
              "counts lines read; every integer subscript of the line is "
-             "guarded against the empty line", floor=3)
+             "guarded against the empty line", floor=1)
     run.rule("C03.R5", "section header/closer post-processing and stack "
              "discipline == reference", floor=3)
     run.rule("C03.R7", "directive set is exactly define/import/include, each "
